@@ -336,7 +336,7 @@ def S(k):
 
 def corpus():
     """Fixed cases that run first in every run; one per known failure mechanism.  VERIF_CORPUS_ONLY=1 runs only these."""
-    return [corpus_growth_with_extra_leases(), corpus_holes(), corpus_upload_overrun()]
+    return [corpus_growth_with_extra_leases(), corpus_holes(), corpus_upload_overrun(), corpus_secrets_ending_in_nul()]
 
 
 def corpus_growth_with_extra_leases():
@@ -362,6 +362,39 @@ def corpus_holes():
            ["rtw", 30, 10 ** 12, WE, S(0x24), S(0x34), True, [[0, [], [[4, hx(b"more")]], None]], []], ["leases"],
            ["cancel", 0, "secret", S(0x35)], ["order"], ["renew", 40, S(0x26)], ["order"],
            ["addlease", 50, 10 ** 12, S(0x26), S(0x36)], ["leases"], ["dump"]]
+    return {"nodeid": hx(sc.NODEID), "ops": ops, "kind": "corpus"}
+
+
+# 32-byte secrets whose blake2b-256 hash ends in 0x00 (found once by search; checked by the corpus builder)
+HASH_ENDS_NUL = ["7070707070707070707070707070707070707070707070707070707000000022",
+                 "707070707070707070707070707070707070707070707070707070700000012d"]
+
+
+def corpus_secrets_ending_in_nul():
+    """stored lease secrets that END IN A ZERO BYTE are secrets like any other: v1 containers (cleartext) with a renew
+    secret ending in 0x00, v2 containers with a renew secret whose blake2b hash ends in 0x00; mutable and immutable;
+    renew and re-add by that secret must find the lease (no IndexError, no duplicate), cancel by it must work"""
+    for x in HASH_ENDS_NUL:
+        assert sc.blake(unhx(x))[-1] == 0
+    r1 = hx(b"\x33" * 30 + b"\x00\x00")          # cleartext secret ending in two NULs
+    c1 = hx(b"\x34" * 31 + b"\x00")
+    r2, c2 = HASH_ENDS_NUL
+    plain = (1, 3000000, b"\x21" * 32, b"\x31" * 32)
+    ops = [
+        ["put", 0, sc.rle(sc.fabricate_mutable(1, sc.NODEID, unhx(WE), b"v1 data", [plain, (1, 3000001, unhx(r1), unhx(c1))]))],
+        ["put", 1, sc.rle(sc.fabricate_immutable(1, b"imm v1", [plain, (1, 3000001, unhx(r1), unhx(c1))]))],
+        ["put", 2, sc.rle(sc.fabricate_mutable(2, sc.NODEID, unhx(WE), b"v2 data", [plain, (1, 3000001, unhx(r2), unhx(c2))]))],
+        ["put", 3, sc.rle(sc.fabricate_immutable(2, b"imm v2", [plain, (1, 3000001, unhx(r2), unhx(c2))]))],
+        ["leases"]]
+    # shares 0/1 know r1, shares 2/3 know r2: add_lease renews where known and adds where not — never a duplicate
+    for k, (r, c) in enumerate([(r1, c1), (r2, c2)]):
+        ops += [["order"], ["addlease", 400000 + 200000 * k, 10 ** 12, r, c], ["leases"],
+                ["order"], ["addlease", 500000 + 200000 * k, 10 ** 12, r, c], ["leases"]]
+    # now every share knows both secrets: renew_lease must succeed
+    ops += [["order"], ["renew", 800000, r1], ["order"], ["renew", 800001, r2], ["leases"], ["dump"]]
+    # a v2 mutable share created by the server itself with such a secret, and an upload
+    ops += [["rtw", 800002, 10 ** 12, WE, r2, c2, True, [[2, [], [[0, hx(b"more")]], None]], []], ["leases"],
+            ["cancel", 0, "secret", c1], ["cancel", 3, "crawler", c2], ["leases"], ["dump"]]
     return {"nodeid": hx(sc.NODEID), "ops": ops, "kind": "corpus"}
 
 
